@@ -30,6 +30,8 @@ that fact on the parsed trees and are skipped when it does not hold.
 
   if not C: A else: B               ==>          if C: B else: A    (only when both arms are present)
 
+  x[:3] == "abc"                    ==>          x.startswith("abc")          (likewise x[-3:] / endswith)
+
   if A and (x := E) != K: S         ==>          if A: x = E; if x != K: S
   while A and (x := E): B           ==>          while A: x = E; if not x: break; B
 
@@ -669,6 +671,26 @@ class _Expr(ast.NodeTransformer):
 
     def visit_Compare(self, node: ast.Compare):
         self.generic_visit(node)
+        # x[:n] == "lit" (len(lit) == n)  ==>  x.startswith("lit");   x[-n:] == "lit"  ==>  x.endswith("lit")
+        if len(node.ops) == 1 and isinstance(node.ops[0], (ast.Eq, ast.NotEq)):
+            l_, r_ = node.left, node.comparators[0]
+            if isinstance(l_, ast.Constant) and isinstance(r_, ast.Subscript):
+                l_, r_ = r_, l_
+            if isinstance(l_, ast.Subscript) and isinstance(l_.slice, ast.Slice) and l_.slice.step is None and isinstance(r_, ast.Constant) \
+                    and isinstance(r_.value, (str, bytes)) and len(r_.value) > 0 and _movable(l_.value):
+                n = len(r_.value)
+                lo, up = l_.slice.lower, l_.slice.upper
+                meth = None
+                if lo is None and isinstance(up, ast.Constant) and up.value == n:
+                    meth = "startswith"
+                elif up is None and isinstance(lo, ast.UnaryOp) and isinstance(lo.op, ast.USub) and isinstance(lo.operand, ast.Constant) and lo.operand.value == n:
+                    meth = "endswith"
+                if meth is not None:
+                    new: ast.AST = ast.Call(func=ast.Attribute(value=l_.value, attr=meth, ctx=ast.Load()), args=[r_], keywords=[])
+                    if isinstance(node.ops[0], ast.NotEq):
+                        new = ast.UnaryOp(op=ast.Not(), operand=new)
+                    self.n.hit("slice-compare->startswith/endswith")
+                    return ast.fix_missing_locations(ast.copy_location(new, node))
         # x in range(a, b)  ==>  a <= x <= b - 1      (x a name: integers in this code base; `range` given literally or
         #                                              through a module constant assigned once)
         if len(node.ops) == 1 and isinstance(node.ops[0], (ast.In, ast.NotIn)) and isinstance(node.left, (ast.Name, ast.Attribute)):
